@@ -108,3 +108,45 @@ def canon(x):
     if isinstance(x, (list, tuple)):
         return [canon(y) for y in x]
     raise TypeError(type(x))
+
+
+# ---------- wire encoding of abstract files for Run/RunJson.v (op 403) ----------
+
+FDIR = {'in': 0, 'out': 1, 'inout': 2}
+
+
+def type_sx(t):
+    return [0, t[1], list(t[2])] if t[0] == 'enum' else [1, t[1], t[2], t[3]]
+
+
+def port_sx(p):
+    return [p[0], p[1], p[2] == 'requires', bool(p[3])]
+
+
+def decl_sx(d):
+    k = d[0]
+    if k == 'ns':
+        return [0, d[1], [decl_sx(x) for x in d[2]]]
+    if k == 'itf':
+        return [1, d[1], [type_sx(t) for t in d[2]],
+                [[e[0], e[1] == 'out', e[2], [[f[0], f[1], FDIR[f[2]]] for f in e[3]]] for e in d[3]]]
+    if k == 'comp':
+        return [2, d[1], [port_sx(p) for p in d[2]]]
+    if k == 'foreign':
+        return [3, d[1], [port_sx(p) for p in d[2]]]
+    if k == 'sys':
+        return [4, d[1], [port_sx(p) for p in d[2]], [[i[0], i[1]] for i in d[3]],
+                [[[b[0][0], [] if b[0][1] is None else [b[0][1]]], [b[1][0], [] if b[1][1] is None else [b[1][1]]]] for b in d[4]]]
+    if k in ('enum', 'subint'):
+        return [5, type_sx(d)]
+    if k == 'extern':
+        return [6, d[1], d[2]]
+    if k == 'import':
+        return [7, d[1]]
+    if k == 'file':
+        return [8, d[1]]
+    if k == 'unknown':
+        return [9, d[1]]
+    if k == 'junk':
+        return [10, json_sx(d[1])]
+    raise ValueError(k)
